@@ -207,11 +207,11 @@ func drawCase(t *rapid.T) caseT {
 	for i := 0; i < nops; i++ {
 		o := opT{}
 		o.Repo = rapid.IntRange(0, len(repoNames)-1).Draw(t, "repo")
-		if rapid.IntRange(0, 79).Draw(t, "ghost") == 0 {
+		if rapid.IntRange(0, 39).Draw(t, "ghost") == 21 {
 			o.Repo = len(repoNames)
 		}
 		pick := func() {
-			if rapid.IntRange(0, 9).Draw(t, "fresh") == 0 {
+			if rapid.IntRange(0, 9).Draw(t, "fresh") == 5 {
 				o.Name, o.Class = drawName(t, "fname")
 			} else {
 				j := rapid.IntRange(0, len(uni)-1).Draw(t, "uidx")
@@ -221,7 +221,7 @@ func drawCase(t *rapid.T) caseT {
 			o.NameQ = fmt.Sprintf("%+q", o.Name)
 		}
 		pickLive := func() {
-			if len(presumed) > 0 && rapid.IntRange(0, 3).Draw(t, "live") > 0 {
+			if len(presumed) > 0 && rapid.IntRange(0, 4).Draw(t, "live") != 3 {
 				j := rapid.IntRange(0, len(presumed)-1).Draw(t, "lidx")
 				o.Repo, o.Name = presumed[j].repo, presumed[j].name
 				o.Class = nameClass(o.Name, "hostile")
@@ -246,7 +246,13 @@ func drawCase(t *rapid.T) caseT {
 				nb = c.NB[o.Repo]
 			}
 			o.Bundle = rapid.IntRange(0, nb-1).Draw(t, "bundle")
-			presumed = append(presumed, pk{o.Repo, o.Name})
+			dup := false
+			for _, p := range presumed {
+				dup = dup || p == pk{o.Repo, o.Name}
+			}
+			if !dup && o.Repo < len(repoNames) {
+				presumed = append(presumed, pk{o.Repo, o.Name})
+			}
 		case w < 13:
 			o.Kind = "del"
 			pickLive()
@@ -258,7 +264,7 @@ func drawCase(t *rapid.T) caseT {
 			o.Kind = "list"
 			// mostly list a repo that presumably has labels, with a prefix taken from one of them
 			cand := uni
-			if len(presumed) > 0 && rapid.IntRange(0, 3).Draw(t, "live") > 0 {
+			if len(presumed) > 0 && rapid.IntRange(0, 4).Draw(t, "live") != 3 {
 				j := rapid.IntRange(0, len(presumed)-1).Draw(t, "lidx")
 				o.Repo = presumed[j].repo
 				cand = nil
